@@ -337,7 +337,11 @@ static int pick (int forced_switch) {
 	for (int i = 0; i < NT; i++) if (T[i].state == ST_RUN) en[n++] = i;
 	int best = -1;
 	for (int i = 0; i < NT; i++) if (T[i].state == ST_BLOCKED && T[i].timed && (best < 0 || T[i].deadline_ns < T[best].deadline_ns)) best = i;
-	if (best >= 0 && (n == 0 || force_fire_next || xs (&sched_rng) % 1000000u < (uint64_t) p_fire_ppm)) {
+	/* a deadline more than an hour of virtual time away is only reached when nothing else,
+	   not even a thread waiting for quiescence, can run */
+	int far = best >= 0 && T[best].deadline_ns - vclock_ns > 3600ll * 1000000000ll;
+	if (best >= 0 && far && n == 0) { for (int i = 0; i < NT; i++) if (T[i].state == ST_WAITQ) { T[i].state = ST_RUN; return (i); } }
+	if (best >= 0 && (n == 0 || (!far && (force_fire_next || xs (&sched_rng) % 1000000u < (uint64_t) p_fire_ppm)))) {
 		force_fire_next = 0;
 		if (vclock_ns < T[best].deadline_ns) vclock_ns = T[best].deadline_ns;
 		T[best].state = ST_RUN; T[best].timedout = 1; en[n++] = best;
@@ -544,6 +548,7 @@ void rt_wait_quiescent (void) {
 	__atomic_store_n (&T[me].state, ST_RUN, __ATOMIC_RELEASE);
 }
 int rt_thread_blocked (int tid) { return (mode_b ? T[tid].state == ST_BLOCKED : (T[tid].state != ST_DONE && T[tid].a_blocked)); }
+int rt_thread_in_wait (int tid) { return (mode_b ? T[tid].state == ST_BLOCKED : (T[tid].state != ST_DONE && __atomic_load_n (&T[tid].a_blocked, __ATOMIC_ACQUIRE))); }
 int rt_thread_done (int tid) { return (T[tid].state == ST_DONE); }
 const char *rt_thread_op (int tid) { return (T[tid].op ? T[tid].op : ""); }
 
@@ -649,6 +654,7 @@ static void do_yield (void) {
 	sched_yield ();
 }
 void __wrap_nsync_yield_ (void) { do_yield (); }
+void rt_yield (void) { do_yield (); }
 void wrap_cpp_yield (void) __asm__ ("__wrap__ZN5nsync12nsync_yield_Ev");
 void wrap_cpp_yield (void) { do_yield (); }
 
